@@ -162,6 +162,17 @@ class Seq:
         return "Seq(%s,%s)" % (self.kind, self.items if self.concrete else "len=%s" % (self.length,))
 
 
+class ObjSeq:
+    """symbolic-length list of objects of one class in struct-of-arrays form: field name -> Array Int -> T.
+    Indexing yields a view object; attribute stores on the view are written back to the arrays."""
+
+    def __init__(self, cls, length, fields):
+        self.cls, self.length, self.fields = cls, length, dict(fields)
+
+    def len(self):
+        return self.length
+
+
 class SetV:
     def __init__(self, arr):
         self.arr = arr  # Array Key -> Bool
@@ -229,6 +240,10 @@ def clone(v, memo=None):
         if v.items is not None:
             n.items = [clone(x, memo) for x in v.items]
         return n
+    if isinstance(v, ObjSeq):
+        n = ObjSeq(v.cls, v.length, v.fields)
+        memo[id(v)] = n
+        return n
     if isinstance(v, SetV):
         n = SetV(v.arr)
         memo[id(v)] = n
@@ -241,6 +256,8 @@ def clone(v, memo=None):
         n = Obj(v.cls, {}, v.name)
         memo[id(v)] = n
         n.fields = {k: clone(x, memo) for k, x in v.fields.items()}
+        if hasattr(v, "origin"):
+            n.origin = (clone(v.origin[0], memo), v.origin[1])
         return n
     if isinstance(v, dict):
         n = {}
